@@ -262,6 +262,13 @@ def run_eval(inp):
     af.add_normalized_repulsor_point(a)
   p = arr(inp["pts"], D)
   p_before = p.copy()
+  if inp.get("pre_dp") is not None:
+    # the same object has already scored the same points under another (larger) radius, as it does between two picks of one call:
+    # what it returns now is the value for the radius and the repulsors it carries NOW
+    af.distance_parameter = numpy.array([inp["pre_dp"]]) if inp.get("dp_as_array") else inp["pre_dp"]
+    af.evaluate_at_point_list(p)
+    af.evaluate_at_point_list(p, batch_size=2)
+    af.distance_parameter = dp
   outs = {}
   for bs in inp["batch_sizes"]:
     outs[str(bs)] = [float(v) for v in af.evaluate_at_point_list(p, batch_size=bs)]
@@ -557,7 +564,8 @@ def gen_eval(rng, exact, real_fm=False):
         table.append([p, rng.choice([0.0, 1.0, rng.randint(1, 63) / 64, rng.randint(1, 63) / 64])])
     fm = dict(type="table", table=table)
   bs = rng.choice([1, 2, 3, len(points), len(points) + 5, 0])
-  return dict(domain=desc, dp=dp, dp_as_array=rng.random() < 0.3, r0=r0, adds=adds, pts=points, fm=fm, batch_sizes=[bs, None], exact=exact)
+  return dict(domain=desc, dp=dp, dp_as_array=rng.random() < 0.3, r0=r0, adds=adds, pts=points, fm=fm, batch_sizes=[bs, None], exact=exact,
+              pre_dp=(float(dp) * rng.choice([2.0, 4.0, 16.0]) + rng.choice([0.0, 0.5])) if rng.random() < 0.3 else None)
 
 
 def gen_loop(rng, exact):
